@@ -154,17 +154,19 @@ def stream_reuse(chk, i, rng, with_grad=False):
 
 
 def stream_large(chk, i, rng):
-    """Larger shapes than the extracted model can run (n up to 900, K up to 24): implementation vs the vectorised
+    """Larger shapes than the extracted model can run (n up to 1500, K up to 40; n*K*K up to 3e6): implementation vs the vectorised
     textbook definition, and score with vs without the gradient. Shape-dependent code paths (blocking, chunking,
     size thresholds) only show here."""
     gl = [x for x in gemlib.gemini_list() if "asserstein" not in x[0]]
     label, fac = gl[i % len(gl)]
     g = fac()
     obj, ovo = gemlib.obj_of(g)
-    K = int(rng.choice([3, 6, 10, 16, 20, 24]))
-    n = int(rng.choice([50, 120, 200, 333, 512, 700, 900]))
+    K = int(rng.choice([3, 6, 10, 16, 24, 32, 40]))
+    n = int(rng.choice([50, 120, 200, 333, 512, 700, 900, 1500]))
     if obj == "mmd":
         n = min(n, 333)
+    if ovo and n * K * K > 3_000_000:
+        n = 3_000_000 // (K * K) - int(rng.integers(0, 7))   # keep the N x K x K tensors of the one-vs-one forms below ~25 MB
     P = gemlib.gen_P(rng, n, K, rng.choice(["soft", "mid", "sharp"]))
     P = np.clip(P, 1e-9, None); P /= P.sum(1, keepdims=True)
     A = None
